@@ -33,4 +33,11 @@ func init() {
 		_ = fs.Parse(args)
 		return httpfam.RunConcWorker(*in, *out, *progress, *from, *deadline)
 	}
+	commands["xh-resp"] = func(args []string) error {
+		fs := flag.NewFlagSet("xh-resp", flag.ExitOnError)
+		in := fs.String("in", "", "response-phase cases ndjson (specs/HttpResp.tla)")
+		out := fs.String("out", "", "trace ndjson")
+		_ = fs.Parse(args)
+		return httpfam.RunResp(*in, *out)
+	}
 }
